@@ -8,6 +8,8 @@ import AfkakProofs.Crc.Truncate
 import AfkakProofs.Crc.CorruptSet
 import AfkakProofs.Crc.Grow
 import AfkakProofs.Crc.CrcField
+import AfkakProofs.Crc.FetchTotal
+import AfkakProofs.Crc.Agree
 import AfkakProps.Open.C12
 /-!
 # C12 — corrupted or truncated message data is never delivered; decoding is linear
@@ -214,11 +216,63 @@ theorem C12_linear_msgset_monitor (gz : Gz) (depth : Nat) (data : List UInt8) :
     setCostOk data.length (decodeSet gz depth data).gz (decodeSet gz depth data).cost = true := by
   simpa [setCostOk] using C12_linear_msgset gz depth data
 
+/-- **A whole fetch response**: `decode_fetch_response` AND the iteration of every message set it
+    hands out — primitive reads + checksummed bytes ≤ 4·|input| + 2·(bytes obtained from gunzip) + 1
+    for every byte string (≤ 2·|input| + 1 when the response decoder itself raises).  The message
+    sets are disjoint slices of the input (`pay_decodeFetch`), so the per-set bounds add up. -/
+theorem C12_linear_fetch_total (gz : Gz) (depth : Nat) (v : Int) (bs : List UInt8) :
+    match fetchTotal gz depth v bs with
+    | (cost, none) => cost ≤ 2 * bs.length + 1
+    | (cost, some g) => cost ≤ 4 * bs.length + 2 * g + 1 :=
+  fetchTotal_le gz depth v bs
+
+theorem C12_linear_fetch_total_monitor (gz : Gz) (depth : Nat) (v : Int) (bs : List UInt8) :
+    fetchTotalOk bs.length ((fetchTotal gz depth v bs).2.getD 0) (fetchTotal gz depth v bs).1 = true := by
+  have := fetchTotal_le gz depth v bs
+  unfold fetchTotalOk
+  rcases h : fetchTotal gz depth v bs with ⟨cost, _ | g⟩ <;> rw [h] at this <;> simp at this ⊢ <;> omega
+
 /-- The model's iteration fuel (|data| + 1) is never exhausted: termination of the `while` loop is
     not an artefact of the fuel. -/
 theorem C12_fuel_suffices (gz : Gz) (depth : Nat) (data : List UInt8) :
     (decodeSet gz depth data).err ≠ some Err.modelFuel :=
   (decodeSet_ok gz depth data).2
+
+/-! ## The model these theorems are about is the model C05's theorems are about
+
+`Afkak.Wire.*` (package "wire") is a second hand-written model of the same Python functions, without
+cost, with `Int` cursors and Python slices.  Erasing the cost from this package's decoders gives
+exactly wire's — proved for the readers, `_decode_message`, `_decode_message_set_iter` and
+`decode_fetch_response`; cross-checked at run time for every other decoder (`xdec` requests). -/
+
+open Afkak.Agree in
+/-- primitive readers -/
+theorem C12_agree_readers (data : List UInt8) (c k : Nat) :
+    (∀ fmt, Afkak.Wire.relativeUnpack ('>' :: fmt) data (c : Int) = eraseRes (relativeUnpack fmt data c k)) ∧
+    Afkak.Wire.readIntString data (c : Int) = eraseRes (readIntString data c k) ∧
+    Afkak.Wire.readShortBytes data (c : Int) = eraseRes (readShortBytes data c k) ∧
+    Afkak.Wire.readShortAscii data (c : Int) = eraseRes (readShortAscii data c k) :=
+  ⟨fun fmt => relativeUnpack_agree fmt data c k, readIntString_agree data c k,
+    readShortBytes_agree data c k, readShortAscii_agree data c k⟩
+
+open Afkak.Agree in
+/-- `_decode_message_set_iter` (and `_decode_message` inside it): every byte string or `None`,
+    every gunzip function, every nesting depth. -/
+theorem C12_agree_msgset (gz : Gz) (depth : Nat) (d : Option (List UInt8)) :
+    eraseSet (decodeSetOpt gz depth d)
+      = Afkak.Wire.decodeMessageSetOpt (extOf gz) (depth + 1) d :=
+  decodeSetOpt_agree gz depth d
+
+open Afkak.Agree in
+/-- `decode_fetch_response` with every message set iterated: same partitions, same messages, same
+    final cursor — or the same exception. -/
+theorem C12_agree_fetch (gz : Gz) (depth : Nat) (v : Int) (data : List UInt8) :
+    match run (decodeFetch v) data with
+    | .ok val c _ => ∃ parts, val = .list parts ∧
+        Afkak.Wire.decodeFetchResponse (extOf gz) (depth + 1) data v
+          = (parts.map (toFetchResp gz depth), .ok (c : Int))
+    | .err e _ => (Afkak.Wire.decodeFetchResponse (extOf gz) (depth + 1) data v).2 = .error (errMap e) :=
+  decodeFetch_agree gz depth v data
 
 /-! ## Non-vacuity: concrete values meeting the hypotheses -/
 
@@ -273,9 +327,13 @@ C12_linear_sync_group_member_assignment
 C12_linear_monitor
 C12_linear_msgset
 C12_linear_msgset_monitor
+C12_linear_fetch_total
+C12_linear_fetch_total_monitor
 C12_fuel_suffices
+C12_agree_readers
+C12_agree_msgset
+C12_agree_fetch
 -/
 /- OPEN_STATEMENTS
 C12_burst_any_position
-C12_linear_fetch_total
 -/
